@@ -281,8 +281,16 @@ class PathCtx:
         return self._solver
 
     def feasible(self, cond):
-        s = self.solver()
         cond = weaken(cond)
+        # re-execution repeats the same query (same prefix terms) on sibling paths: memoise per explorer
+        fm = getattr(self.explorer, "fmemo", None)
+        if fm is None:
+            fm = self.explorer.fmemo = {}
+        fkey = (tuple(c.get_id() for c, k in zip(self.pc, self.kinds) if k != "D"), cond.get_id())
+        hit = fm.get(fkey)
+        if hit is not None:
+            return hit[0]
+        s = self.solver()
         s.push()
         s.add(cond)
         t0 = time.time()
@@ -290,7 +298,9 @@ class PathCtx:
         self.explorer.stats["branch_checks"] += 1
         self.explorer.stats["branch_time"] += time.time() - t0
         s.pop()
-        return r != z3.unsat  # unknown counts as feasible (sound: more paths)
+        res = r != z3.unsat  # unknown counts as feasible (sound: more paths)
+        fm[fkey] = (res, list(self.pc), cond)  # keeps the key's terms alive
+        return res
 
     def feasible_full(self, timeout_ms=5000):
         """Feasibility with the complete path condition (quantifiers included); unknown counts as feasible."""
@@ -299,6 +309,17 @@ class PathCtx:
         for c in self.pc:
             s.add(c)
         return s.check() != z3.unsat
+
+    def feasible_full_memo(self, timeout_ms=3000):
+        """feasible_full, memoised per explorer on the identity of the path condition (re-execution repeats it)"""
+        fm = getattr(self.explorer, "ffmemo", None)
+        if fm is None:
+            fm = self.explorer.ffmemo = {}
+        key = tuple(c.get_id() for c in self.pc)
+        hit = fm.get(key)
+        if hit is None:
+            hit = fm[key] = (self.feasible_full(timeout_ms), list(self.pc))
+        return hit[0]
 
     def assume(self, cond, name=None, glob=False, heavy=False):
         """glob=True: the fact is self-guarded and valid on every path (type facts); it is propagated unguarded.
